@@ -765,10 +765,17 @@ package xpath
 //@   captures 0 <= i
 //@   ensures[in-order@C11] old(i) < len(list) ==> result == list[old(i)] && i == old(i) + 1
 //@   ensures[then-nil@C11] old(i) >= len(list) ==> result == nil && i == old(i)
+//@ define pv(f, e) = evalv(ref(f.Predicate), e)
+//@ define epochOf(f, j, k0, e0) = e0 + (j - k0) + 1
 //@ func (*filterQuery).Select
-//@   props C15 C13
-//@   theory stream for C13
+//@   props C15 C13 C02
+//@   theory stream for C13 C02
 //@   uses one-document
+//@   assume[ownership] ref(f.Input) != ref(f.Predicate)
+//@   ensures[keeps-passing@C02] result != nil && !is(f.Predicate, nopQuery) ==> k(f.Input) > old(k(f.Input)) && pos(result) == inAt(f.Input, k(f.Input) - 1) && ctxp(f.Predicate) == pos(result) && (!is(pv(f, epoch(f.Predicate)), float64) ==> predTruth(pv(f, epoch(f.Predicate)), epoch(f.Predicate), 0))
+//@   ensures[skips-failing@C02] !is(f.Predicate, nopQuery) ==> epoch(f.Predicate) == old(epoch(f.Predicate)) + (k(f.Input) - old(k(f.Input))) && forall(j, Int, old(k(f.Input)) <= j && j < ite(result != nil, k(f.Input) - 1, k(f.Input)) && !is(pv(f, epochOf(f, j, old(k(f.Input)), old(epoch(f.Predicate)))), float64) ==> !predTruth(pv(f, epochOf(f, j, old(k(f.Input)), old(epoch(f.Predicate)))), epochOf(f, j, old(k(f.Input)), old(epoch(f.Predicate))), 0))
+//@   ensures[drains-input@C02] result == nil ==> k(f.Input) == slen(ref(f.Input), epoch(f.Input))
+//@   loop 0 invariant[scan@C02] old(k(f.Input)) <= k(f.Input) && epoch(f.Input) == old(epoch(f.Input)) && (!is(f.Predicate, nopQuery) ==> epoch(f.Predicate) == old(epoch(f.Predicate)) + (k(f.Input) - old(k(f.Input))) && forall(j, Int, old(k(f.Input)) <= j && j < k(f.Input) && !is(pv(f, epochOf(f, j, old(k(f.Input)), old(epoch(f.Predicate)))), float64) ==> !predTruth(pv(f, epochOf(f, j, old(k(f.Input)), old(epoch(f.Predicate)))), epochOf(f, j, old(k(f.Input)), old(epoch(f.Predicate))), 0)))
 //@   loop 0 invariant f.positmap != nil
 //@   loop * invariant[cursor@C13] cur(t) == old(cur(t)) && pos(cur(t)) == old(pos(cur(t)))
 //@   loop * invariant[root@C13] pos(root) == old(pos(cur(t)))
@@ -1099,12 +1106,19 @@ package xpath
 //@   props C15
 //@   inline
 //@   requires[@C15] valtype(i)
+// The truth of a predicate value (XPath 1.0, 2.4): a boolean is itself, a string is true when it is
+// not empty, a node-set when it is not empty; a number is compared with the proximity position.
+//@ define predTruth(v, e, pt) = ite(is(v, bool), as(v, bool), ite(is(v, string), len(as(v, string)) > 0, is(v, query) && 0 < slen(ref(v), e)))
 //@ func (*filterQuery).do
 //@   props C15 C02 C13
 //@   requires[@C15] t != nil
 //@   tree-frame
 //@   preserves heap(F:NodeIterator.*)
-//@   theory stream for C13
+//@   theory stream for C13 C02
+//@   assume[ownership] ref(f.Input) != ref(f.Predicate)
+//@   ensures[epoch@C02] epoch(f.Predicate) == old(epoch(f.Predicate)) + 1 && ctxp(f.Predicate) == old(pos(cur(t)))
+//@   ensures[input-untouched@C02] k(f.Input) == old(k(f.Input)) && epoch(f.Input) == old(epoch(f.Input))
+//@   ensures[truth@C02] !is(f.Predicate, nopQuery) && !is(evalv(ref(f.Predicate), epoch(f.Predicate)), float64) ==> result == predTruth(evalv(ref(f.Predicate), epoch(f.Predicate)), epoch(f.Predicate), 0)
 //@   uses one-document
 //@   ensures[cursor-restored@C13] pos(cur(t)) == old(pos(cur(t)))
 //@   loop * invariant[cursor@C13] cur(t) == old(cur(t)) && pos(cur(t)) == old(pos(cur(t)))
